@@ -1,8 +1,78 @@
 import Req.Driver.Proto
-/-! Driver lanes of C04. -/
-namespace Req.Driver.L.C04
-open Req.Proto
+import Req.H1.Response
+/-! Driver lanes of C04 (also used by C03).
 
-def lanes : List (String × (List String → String)) := []
+`c04parse <H|G> <B> <hex stream>` → canonical rendering of `parseResponse`.
+`c04chunk <B> <hex stream>` → the chunked reader alone.
+`c04mime <hex stream>` → the header block reader alone.
+-/
+namespace Req.Driver.L.C04
+open Req.Proto Req.H1
+
+def bytesLe : Bytes → Bytes → Bool
+  | [], _ => true
+  | _ :: _, [] => false
+  | a :: as, b :: bs => if a < b then true else if b < a then false else bytesLe as bs
+
+def renderMap (m : HeaderMap) : String :=
+  if m.isEmpty then "-" else
+  let sorted := m.mergeSort (fun a b => bytesLe a.1 b.1)
+  ";".intercalate (sorted.map fun (k, vs) => encodeHex k ++ "=" ++ encodeList vs)
+
+def renderFraming : Framing → String
+  | .none => "none"
+  | .length n => "len" ++ toString n
+  | .chunked => "chunked"
+  | .untilClose => "close"
+
+def renderBool (b : Bool) : String := if b then "1" else "0"
+
+def renderOutcome : Outcome → String
+  | .reject => "rej"
+  | .resp m b =>
+    "ok proto=" ++ encodeHex m.sl.proto ++ " status=" ++ encodeHex m.sl.status ++
+    " code=" ++ toString m.sl.code ++ " ver=" ++ toString m.sl.major ++ "." ++ toString m.sl.minor ++
+    " hdr=" ++ renderMap m.header ++ " cl=" ++ toString m.contentLength ++
+    " te=" ++ renderBool m.teChunked ++ " close=" ++ renderBool m.close ++
+    " framing=" ++ renderFraming m.framing ++
+    " body=" ++ encodeHex b.data ++ " end=" ++ (if b.ok then "eof" else "err") ++
+    " trailer=" ++ renderMap b.trailer ++
+    " rest=" ++ (if b.ok then encodeHex b.rest else "?")
+
+def laneParse : List String → String
+  | [meth, b, hex] =>
+    match b.toNat?, decodeHex hex with
+    | some B, some s =>
+      if meth == "H" then renderOutcome (parseResponse true B s)
+      else if meth == "G" then renderOutcome (parseResponse false B s)
+      else "bad-op"
+    | _, _ => "bad-op"
+  | _ => "bad-op"
+
+def laneChunk : List String → String
+  | [b, hex] =>
+    match b.toNat?, decodeHex hex with
+    | some B, some s =>
+      match decodeChunked B s with
+      | (d, none) => "err body=" ++ encodeHex d
+      | (d, some r) => "eof body=" ++ encodeHex d ++ " rest=" ++ encodeHex r
+    | _, _ => "bad-op"
+  | _ => "bad-op"
+
+def laneMime : List String → String
+  | [hex] =>
+    match decodeHex hex with
+    | some s =>
+      match readMIMEHeader s with
+      | none => "rej"
+      | some (m, r) => "ok hdr=" ++ renderMap m ++ " rest=" ++ encodeHex r
+    | none => "bad-op"
+  | _ => "bad-op"
+
+def lanes : List (String × (List String → String)) := [
+  ("c04parse", laneParse),
+  ("c04chunk", laneChunk),
+  ("c04mime", laneMime)
+]
 
 end Req.Driver.L.C04
